@@ -91,7 +91,7 @@ fn gen_skip_elem(rng: &mut Rng, depth: usize, out: &mut Vec<Tok>, max: usize) {
                     }
                 }
             }
-            8 => out.push(Tok::new(TK::Comment, format!("<!--{}-->", rng.pick(&["</a>", "</b>", "<a>", " c ", "</a:b>", ">", "-"])))),
+            8 => out.push(Tok::new(TK::Comment, format!("<!--{}-->", rng.pick(&["</a>", "</b>", "<a>", " c ", "</a:b>", ">", "-", "a--b", "--"])))),
             9 => out.push(Tok::new(TK::CData, format!("<![CDATA[{}]]>", rng.pick(&["</a>", "</b>", "<a>", "x", "]]", "</ab>"])))),
             10 => out.push(Tok::new(TK::PI, format!("<?{}?>", rng.pick(&["p </a>", "p", "p <a>", "x ?"])))),
             _ => {
@@ -152,7 +152,7 @@ impl Scenario for Skip {
                 cfg |= b;
             }
         }
-        if rng.chance(1, 8) {
+        if rng.chance(1, 5) {
             cfg |= CFG_CHECK_COMMENTS;
         }
         p.cfg = cfg;
@@ -160,7 +160,12 @@ impl Scenario for Skip {
         p.stream = gen_hist_stream(rng, &p.doc, 2);
         let n_ops = rng.range(2, 2 * p.toks.len() + 2);
         let skip_share = *rng.pick(&[2usize, 4, 8]);
+        let flip_share = *rng.pick(&[0usize, 0, 6, 12]);
         for _ in 0..n_ops {
+            if flip_share > 0 && rng.chance(1, flip_share) {
+                let bit = *rng.pick(&[CFG_TRIM_START, CFG_TRIM_START, CFG_TRIM_END, CFG_EXPAND_EMPTY, CFG_CHECK_END_NAMES, CFG_ALLOW_UNMATCHED, CFG_CHECK_COMMENTS]);
+                p.ops.push(Op::Flip { bit, on: rng.bool() });
+            }
             p.ops.push(if rng.chance(1, skip_share) {
                 if p.stream.kind == SourceKind::Slice && rng.chance(1, 3) {
                     Op::ReadText
@@ -196,24 +201,39 @@ impl Scenario for Skip {
         let sp = spans(toks);
         let mt = match_table(toks);
         let eff_len = plan.stream.eof_at.map(|e| (e as usize).min(plan.doc.len())).unwrap_or(plan.doc.len());
-        // reference: plain event-by-event read of the same (possibly truncated) bytes
+        // The reference is a second reader (slice, same bytes, same truncation) driven in
+        // lock step: it reads every event one by one where the reader under test skips,
+        // and it receives the same configuration flips at the same points.
         let mut ref_st = Stream::slice();
         ref_st.eof_at = plan.stream.eof_at;
-        let reference = run_reads(&plan.doc, &shared, &ref_st, plan.reader, plan.cfg, plan.run, false);
-        st.executions += 1;
-        monitor_violations(&reference, plan, "reference run", &mut out);
-        let r = &reference.steps;
         let log = new_log(refill_budget(plan.doc.len(), &plan.stream) * 2);
+        let ref_log = new_log(u32::MAX);
         let mut nontrivial = false;
         let mut skips = 0u64;
         let mut fail_paths = 0u64;
+        let mut flips = 0u64;
+        let mut skips_after_failure = 0u64;
         let mut v: Vec<Violation> = vec![];
+        let mut digest = 0u64;
         let res = guard(|| {
             let mut rd = Rd::new(&plan.doc, &shared, &plan.stream, plan.reader, plan.cfg, &log, plan.run);
-            let mut ri = 0usize; // next reference step
+            let mut rf = Rd::new(&plan.doc, &shared, &ref_st, plan.reader, plan.cfg, &ref_log, plan.run);
+            let mut cfg = plan.cfg;
+            let mut had_failure = false;
             let mut last_start: Option<(Vec<u8>, u64)> = None; // (name, pos after) of the Start just returned
             for (oi, op) in plan.ops.iter().enumerate() {
                 log.borrow_mut().cur_op = oi as u32;
+                if let Op::Flip { bit, on } = op {
+                    if *on {
+                        cfg |= *bit;
+                    } else {
+                        cfg &= !*bit;
+                    }
+                    apply_cfg(rd.config_mut(), cfg);
+                    apply_cfg(rf.config_mut(), cfg);
+                    flips += 1;
+                    continue;
+                }
                 let do_skip = matches!(op, Op::Skip | Op::ReadText) && last_start.is_some();
                 if !do_skip {
                     let o = Out::from(rd.read());
@@ -223,26 +243,27 @@ impl Scenario for Skip {
                             return; // injected error during a plain read: C18's business
                         }
                     }
-                    match r.get(ri) {
-                        Some(want) if want.out == o && want.pos == pos && want.epos == epos => {}
-                        other => {
-                            v.push(Violation::new(
-                                "C12",
-                                "event-after-skip-differs",
-                                format!(
-                                    "op {} (Read): expected [{}], got [{} pos={} errpos={}] ({} skips before)",
-                                    oi,
-                                    show_step(other),
-                                    o.short(),
-                                    pos,
-                                    epos,
-                                    skips
-                                ),
-                            ));
-                            return;
-                        }
+                    let want = Out::from(rf.read());
+                    let (wpos, wepos) = (rf.pos(), rf.epos());
+                    digest = digest.wrapping_mul(31).wrapping_add(pos ^ (epos << 20));
+                    if want != o || wpos != pos || wepos != epos {
+                        v.push(Violation::new(
+                            "C12",
+                            "event-after-skip-differs",
+                            format!(
+                                "op {} (Read): a reader that read every event gives [{} pos={} errpos={}], the reader that skipped gives [{} pos={} errpos={}] ({} skips before)",
+                                oi,
+                                want.short(),
+                                wpos,
+                                wepos,
+                                o.short(),
+                                pos,
+                                epos,
+                                skips
+                            ),
+                        ));
+                        return;
                     }
-                    ri += 1;
                     last_start = match &o {
                         Out::Ev(Event::Start(s)) => Some((s.name().as_ref().to_vec(), pos)),
                         _ => None,
@@ -255,7 +276,14 @@ impl Scenario for Skip {
                 // ---- skip the element whose Start was just returned ----
                 let (name, start_pos) = last_start.take().unwrap();
                 skips += 1;
+                if had_failure {
+                    skips_after_failure += 1;
+                }
                 let cfg_before = read_cfg(rd.config());
+                if cfg_before != cfg {
+                    v.push(Violation::new("C12", "config-not-restored", format!("op {}: configuration is [{}] but the caller last set [{}]", oi, cfg_text(cfg_before), cfg_text(cfg))));
+                    return;
+                }
                 // token of that Start: its end offset is the position after the event
                 let ti = match (0..toks.len()).find(|&t| sp[t].1 as u64 == start_pos && matches!(toks[t].k, TK::Start | TK::Empty)) {
                     Some(t) => t,
@@ -264,7 +292,7 @@ impl Scenario for Skip {
                         return;
                     }
                 };
-                // (expected span, position after the skip, reference index after the skip)
+                // (expected span, position after the skip)
                 let expect: Option<((u64, u64), u64)> = if toks[ti].k == TK::Empty {
                     Some(((start_pos, start_pos), start_pos))
                 } else {
@@ -273,15 +301,17 @@ impl Scenario for Skip {
                         _ => None, // end tag missing or cut off: failure path
                     }
                 };
-                // is there an error inside the element in the reference run?
+                // the reference reader walks through the element event by event
                 let mut inner_err: Option<String> = None;
-                let mut rj = ri;
+                let mut inner_fatal = false;
                 let mut depth = 0i64;
                 let mut found_end = false;
-                while rj < r.len() {
-                    match &r[rj].out {
-                        Out::Err { dbg, .. } => {
-                            inner_err = Some(dbg.clone());
+                let walk_budget = 2 * plan.doc.len() + 16;
+                for _ in 0..walk_budget {
+                    match Out::from(rf.read()) {
+                        Out::Err { dbg, class } => {
+                            inner_err = Some(dbg);
+                            inner_fatal = !matches!(class, ErrClass::IllFormed);
                             break;
                         }
                         Out::Ev(Event::Start(_)) => depth += 1,
@@ -295,7 +325,6 @@ impl Scenario for Skip {
                         Out::Ev(Event::Eof) => break,
                         _ => {}
                     }
-                    rj += 1;
                 }
                 let text_mode = matches!(op, Op::ReadText);
                 let got: Result<((u64, u64), Option<String>), Error> = if text_mode {
@@ -339,8 +368,18 @@ impl Scenario for Skip {
                         fail_paths += 1;
                         if format!("{:?}", e) != *want {
                             v.push(Violation::new("C12", "skip-failure-wrong", format!("op {}: element contains an error ({}) but the skip returned {:?}", oi, want, e)));
+                            return;
                         }
-                        return;
+                        if inner_fatal {
+                            return;
+                        }
+                        // a recoverable (ill-formedness) error: both readers stand right
+                        // after the offending markup; the history goes on
+                        if rd.pos() != rf.pos() {
+                            v.push(Violation::new("C12", "wrong-position-after-skip", format!("op {}: after the failed skip the position is {}, the reader that read every event stands at {}", oi, rd.pos(), rf.pos())));
+                            return;
+                        }
+                        had_failure = true;
                     }
                     (Ok(_), _, Some(want), false) => {
                         v.push(Violation::new("C12", "skip-failure-wrong", format!("op {}: element contains an error ({}) but the skip returned Ok", oi, want)));
@@ -365,13 +404,12 @@ impl Scenario for Skip {
                                 "C12",
                                 "wrong-span",
                                 format!(
-                                    "op {}: skipping <{}> started at {}: returned span {:?}, the element's content is {:?}{}",
+                                    "op {}: skipping <{}> started at {}: returned span {:?}, the element's content is {:?}",
                                     oi,
-                                    String::from_utf8_lossy(&name),
+                                    crate::core::lossy(&name),
                                     start_pos,
                                     span,
-                                    want_span,
-                                    ""
+                                    want_span
                                 ),
                             ));
                             return;
@@ -379,7 +417,7 @@ impl Scenario for Skip {
                         if let Some(t) = text {
                             let want = String::from_utf8_lossy(&plan.doc[want_span.0 as usize..want_span.1 as usize]).into_owned();
                             if *t != want {
-                                v.push(Violation::new("C12", "wrong-text", format!("op {}: read_text returned {:?}, the input text of the span is {:?}", oi, t, want)));
+                                v.push(Violation::new("C12", "wrong-text", format!("op {}: read_text returned {:?}, the input text of the span is {:?}", oi, crate::core::lossy(t.as_bytes()), crate::core::lossy(want.as_bytes()))));
                                 return;
                             }
                         }
@@ -387,8 +425,8 @@ impl Scenario for Skip {
                             v.push(Violation::new("C12", "wrong-position-after-skip", format!("op {}: position after the skip is {}, the end tag ends at {}", oi, rd.pos(), want_pos)));
                             return;
                         }
-                        if !found_end {
-                            v.push(Violation::new("C12", "model-desync", format!("op {}: reference run has no matching End", oi)));
+                        if !found_end || rf.pos() != *want_pos {
+                            v.push(Violation::new("C12", "model-desync", format!("op {}: the reference reader did not arrive at the end tag (found_end={}, position {} vs {})", oi, found_end, rf.pos(), want_pos)));
                             return;
                         }
                         // nested same-name element or look-alike end tag inside?
@@ -400,12 +438,11 @@ impl Scenario for Skip {
                                 nontrivial = true;
                             }
                         }
-                        ri = rj + 1;
                     }
                 }
             }
         });
-        st.executions += 1;
+        st.executions += 2;
         {
             let l = log.borrow();
             st.note_schedule(trace_hash(&l.trace));
@@ -418,13 +455,15 @@ impl Scenario for Skip {
         }
         st.add("op.skip", skips);
         st.add("op.skip_failure_path", fail_paths);
+        st.add("op.skip_after_an_earlier_failed_skip", skips_after_failure);
+        st.add("op.flip", flips);
         st.bump(&format!("source.{}", plan.stream.kind.name()));
         if let Err(p) = res {
             panic_to_violation(&p, plan, "skip run", "C03", &mut out);
         }
         out.extend(v);
-        st.note_distinct(plan.hash64(), (nontrivial || fail_paths > 0) && skips > 0);
-        st.fold_digest(plan.run, crate::plan::fnv_bytes(format!("{:?}{}", out.iter().map(|v| &v.kind).collect::<Vec<_>>(), skips).as_bytes()) ^ reference.hash());
+        st.note_distinct(plan.hash64(), (nontrivial || fail_paths > 0 || flips > 0) && skips > 0);
+        st.fold_digest(plan.run, crate::plan::fnv_bytes(format!("{:?}{}", out.iter().map(|v| &v.kind).collect::<Vec<_>>(), skips).as_bytes()) ^ digest);
         out
     }
 }
